@@ -127,7 +127,7 @@ func (s *rawSvc) OpenTunnel(stream tunnelpb.TunnelService_OpenTunnelServer) erro
 	}
 	done := make(chan error, 1)
 	ts.rawS = &rawServerEnd{
-		send:   func(m *tunnelpb.ServerToClient) error { return stream.Send(m) },
+		send: func(m *tunnelpb.ServerToClient) error { return stream.Send(m) },
 		finish: func(err error) {
 			select {
 			case done <- err:
@@ -164,7 +164,7 @@ func (s *rawSvc) OpenReverseTunnel(stream tunnelpb.TunnelService_OpenReverseTunn
 	}
 	done := make(chan error, 1)
 	ts.rawC = &rawClientEnd{
-		send:   func(m *tunnelpb.ClientToServer) error { return stream.Send(m) },
+		send: func(m *tunnelpb.ClientToServer) error { return stream.Send(m) },
 		finish: func(err error) {
 			select {
 			case done <- err:
@@ -300,7 +300,9 @@ func (w *World) s2c(t *tunnelState) *gpipe {
 func (w *World) openTunnel(m map[string]string) { w.openTunnelOpt(m, true) }
 
 // free-running variants (no bubble)
-func (w *World) openTunnelFree(md, peer string) { w.openTunnelOpt(map[string]string{"md": md, "peer": peer}, false) }
+func (w *World) openTunnelFree(md, peer string) {
+	w.openTunnelOpt(map[string]string{"md": md, "peer": peer}, false)
+}
 
 func (w *World) waitChannel(t int, d time.Duration) grpc.ClientConnInterface {
 	deadline := time.Now().Add(d)
